@@ -78,7 +78,7 @@ func c03Gen(r *rand.Rand, tier string) []Case {
 	// same replays again
 	out = append(out, Case{"eth ? ? # k=2 offs=0 type=legacy", "cos ? ? ? ? # k=2 signseq=0 chain=ok mutate=none", "eth ? ? # k=2 offs=0,1 type=dynamic",
 		"eth ? ? # k=2 replay=1", "cos ? ? ? ? # k=2 replay=1", "vconv # k=2", "eth ? ? # k=2 replay=1", "cos ? ? ? ? # k=2 replay=1",
-		"eth ? ? # k=2 offs=0 type=access", "eth ? ? # k=2 replay=1"})
+		"eth ? ? # k=2 offs=0 type=access", "eth ? ? # k=2 replay=1", "ethfrom # k=1 v=2", "ethfrom # k=3 v=1", "eth ? ? # k=1 offs=0 type=legacy"})
 	for i := 0; i < n; i++ {
 		var c Case
 		for j := 0; j < 6+r.Intn(10); j++ {
@@ -351,6 +351,35 @@ func c03Exec(c Case) (outs []string, fails []Failure, tags []string) {
 					if !balOf(k).Equal(b0) || now != seq {
 						fl("C03:rejected-tx-changed-account:"+route, "a rejected transaction changed the signer's sequence or balance: "+line)
 					}
+				}
+			case "ethfrom":
+				// an Ethereum transaction signed by key k alone whose wire field From names another account (v), with that
+				// account's sequence as its nonce, placed in a block directly (DeliverTx only, as a proposer can do)
+				out = "skip"
+				v := vmIdx(kv["v"])
+				to := common.BytesToAddress(testAddr(660))
+				msg := signEth(k, ethArgs("legacy", seqOf(v), to), chainID)
+				msg.From = kr.GetKey(v).Addr.String()
+				b := txCfg.NewTxBuilder()
+				if err := b.SetMsgs(msg); err != nil {
+					panic(err)
+				}
+				opt, err := codectypes.NewAnyWithValue(&evmtypes.ExtensionOptionsEthereumTx{})
+				if err != nil {
+					panic(err)
+				}
+				b.(authtx.ExtensionOptionsTxBuilder).SetExtensionOptions(opt)
+				b.SetGasLimit(msg.GetGas())
+				b.SetFeeAmount(sdk.NewCoins(sdk.NewCoin(denom, sdkmath.NewIntFromBigInt(msg.GetFee()))))
+				bz, err := txCfg.TxEncoder()(b.GetTx())
+				if err != nil {
+					panic(err)
+				}
+				vs0, vb0 := seqOf(v), balOf(v)
+				res := app.BaseApp.DeliverTx(abci.RequestDeliverTx{Tx: bz})
+				tags = append(tags, fmt.Sprintf("eth-foreign-from-code-%d", res.Code))
+				if res.Code == 0 || seqOf(v) != vs0 || !balOf(v).Equal(vb0) {
+					fl("C03:unsigned-from-field-acted-on", fmt.Sprintf("an Ethereum transaction signed by key %d only, naming key %d in its From field, was delivered with code %d; the named account's sequence went %d → %d and its balance %s → %s although its holder signed nothing", k, v, res.Code, vs0, seqOf(v), vb0, balOf(v)))
 				}
 			case "vconv":
 				// someone else turns the key's account into a vesting account (a small grant); nothing about what the key
